@@ -154,6 +154,13 @@ class Runtime:
         st, alias = schema_struct(schema, doc)
         self.schemas.append({"schema": schema, "doc": doc, "before": digest(st), "alias": int(alias)})
 
+    def printed(self, f):
+        """what f() writes to stdout, or the exception class"""
+        buf = io.StringIO()
+        with contextlib.redirect_stdout(buf):
+            ok, v = self.call(f)
+        return buf.getvalue() if ok else v[0]
+
     def call(self, f):
         """(True, value) | (False, exception class name, code)"""
         try:
@@ -359,7 +366,7 @@ class Runtime:
             res = self.load(q["doc"], "class")
             if res[0]:
                 st, alias = schema_struct(res[1], q["doc"])
-                return ["load", True, st, alias, res[1].json() is q["doc"]], [0, []]
+                return ["load", True, st, alias, res[1].json() is q["doc"], self.printed(res[1].print)], [0, []]
             return ["load", False, res[1][0]], [1, res[1][1]]
         if kind == "read":
             nav = None
@@ -375,7 +382,7 @@ class Runtime:
                 return ["read", "no schema"], [2]
             if isinstance(nav, str):
                 return ["read", "nav raised", nav], [2]
-            return ["read", self.read_all(nav, q["paths"])], [2]
+            return ["read", self.read_all(nav, q["paths"]), self.printed(nav.dump), self.printed(nav.schema.print)], [2]
         raise ValueError(f"unknown probe {kind}")
 
     def immut(self):
